@@ -258,7 +258,8 @@ def rule_py_layout_attrs(rep, floor=500):
     import ast
     from .. import pyfront as pf
     r = rep.rule("TABLE.py-layout-attrs", "every attribute the Python layer reads or calls on a layout object (an expression named layout / ending in .layout / ._layout) is a name that src/python/*.cpp binds "
-                 "(.def / .def_property...) or that the package itself defines: a mistyped or renamed method would be an AttributeError at run time", floor=floor)
+                 "(.def / .def_property...) or that the package itself defines: a mistyped or renamed method would be an AttributeError at run time; "
+                 "(b) a name that content.cpp binds only with .def (a method, never a property) is called where it is used on a layout expression", floor=floor)
     bound = {b.name for b in bindings()}
     mods = [x for x in pf.all_modules() if "generated_parser" not in x]
     pym = set()
@@ -287,4 +288,33 @@ def rule_py_layout_attrs(rep, floor=500):
             cnt[k0] = cnt.get(k0, 0) + 1
             r.check(c.attr in bound or c.attr in pym, "%s:%s.%s#%d" % (rel, recv[-20:], c.attr, cnt[k0]), m.where(c),
                     "%s uses `%s.%s`, but no class of the extension module binds `%s` and the package does not define it" % (rel, recv, c.attr, c.attr), detail="bound or defined")
+    # (b) names that src/python/content.cpp binds only as methods are called, not read
+    cb = [b for b in bindings() if b.file.endswith("content.cpp") and not b.is_init]
+    methods = {b.name for b in cb if not b.is_property} - {b.name for b in cb if b.is_property}
+
+    def islay(v):
+        recv = ast.unparse(v)
+        if recv in ("ak.layout", "awkward.layout") or recv.endswith("_numba.layout"):
+            return False
+        if recv in ("layout", "self._layout", "self.layout", "content") or recv.endswith(".layout") or recv.endswith("._layout"):
+            return True
+        if isinstance(v, ast.Call) and isinstance(v.func, ast.Attribute) and v.func.attr in ("content", "field", "project", "simplify", "toListOffsetArray64", "toRegularArray") and islay(v.func.value):
+            return True
+        if isinstance(v, ast.Attribute) and v.attr in ("content", "array") and islay(v.value):
+            return True
+        return False
+    for rel in mods:
+        m = pf.module(rel)
+        par = {}
+        for x in ast.walk(m.tree):
+            for ch in ast.iter_child_nodes(x):
+                par[ch] = x
+        k = 0
+        for c in ast.walk(m.tree):
+            if isinstance(c, ast.Attribute) and isinstance(c.ctx, ast.Load) and c.attr in methods and islay(c.value):
+                p_ = par.get(c)
+                k += 1
+                called = isinstance(p_, ast.Call) and p_.func is c
+                r.check(called, "%s:method.%s#%d" % (rel, c.attr, k), m.where(c), "%s reads `%s` without calling it: content.cpp binds %s only as a method, so the expression is a bound method, not its value" % (
+                    rel, ast.unparse(c)[:60], c.attr), detail="method is called")
     return r.done()
